@@ -109,6 +109,9 @@ type Sys struct {
 	Rec     *Recorder
 	Crashes int
 	noFault bool
+	// observers (Knobs.Observers)
+	obsStarted map[int]bool
+	obsCancels []context.CancelFunc
 	connUp  map[string]bool
 	stopped bool
 	// association of scenario calls with log indexes (MapCalls)
@@ -413,13 +416,46 @@ func (s *Sys) clientActions() []Action {
 	if s.Plan.Knobs.CancelLate > 0 {
 		for _, c := range s.Calls {
 			c := c
-			if c != nil && c.Returned && !c.cancelled && s.K.StepN >= c.RetStep+s.Plan.Knobs.CancelLate {
+			// (late means late, not never: once the run is in its fair phase the cancellation is due at once - a run that
+			// has gone quiet would otherwise never reach the step at which it becomes due)
+			if c != nil && c.Returned && !c.cancelled && (s.K.StepN >= c.RetStep+s.Plan.Knobs.CancelLate || s.Healing) {
 				acts = append(acts, Action{Key: fmt.Sprintf("ctx/%d", c.N), Fire: func() {
 					c.cancelled = true
 					c.cancel()
 				}})
 			}
 		}
+	}
+	// observers: a second client watches the transaction of a waiting request by id
+	for _, i := range s.Plan.Knobs.Observers {
+		i := i
+		if s.obsStarted[i] || i >= len(s.Calls) || s.Calls[i] == nil || s.Calls[i].Returned || s.Calls[i].Cut {
+			continue
+		}
+		var id configapi.TransactionID
+		for idx, n := range s.Rec.TxCall {
+			if n == i && s.Rec.Txs[idx] != nil {
+				id = s.Rec.Txs[idx].ID
+			}
+		}
+		if id == "" {
+			continue
+		}
+		acts = append(acts, Action{Key: fmt.Sprintf("obs/%d", i), Task: fmt.Sprintf("obs/%d", i), Fire: func() {
+			if s.obsStarted == nil {
+				s.obsStarted = map[int]bool{}
+			}
+			s.obsStarted[i] = true
+			s.K.Probe("observer-started")
+			inc := s.Inc
+			ctx, cancel := context.WithCancel(context.Background())
+			s.obsCancels = append(s.obsCancels, cancel)
+			st := &obsStream{ctx: ctx}
+			go func() {
+				defer func() { _ = recover() }()
+				_ = inc.admin.WatchTransactions(&adminapi.WatchTransactionsRequest{ID: id}, st)
+			}()
+		}})
 	}
 	for _, c := range s.Probes {
 		c := c
@@ -716,6 +752,9 @@ func (s *Sys) Stop() {
 		return
 	}
 	s.stopped = true
+	for _, c := range s.obsCancels {
+		c()
+	}
 	for _, c := range append(append([]*Call{}, s.Calls...), s.Probes...) {
 		if c != nil && c.cancel != nil {
 			c.cancel()
@@ -744,3 +783,17 @@ func grpcCode(err error) codes.Code {
 	}
 	return codes.Unknown
 }
+
+// obsStream is the server side of an observer's admin WatchTransactions call: it accepts every event.
+type obsStream struct {
+	ctx context.Context
+	n   int
+}
+
+func (o *obsStream) Send(*adminapi.WatchTransactionsResponse) error { o.n++; return nil }
+func (o *obsStream) SetHeader(metadata.MD) error                    { return nil }
+func (o *obsStream) SendHeader(metadata.MD) error                   { return nil }
+func (o *obsStream) SetTrailer(metadata.MD)                         {}
+func (o *obsStream) Context() context.Context                       { return o.ctx }
+func (o *obsStream) SendMsg(m any) error                            { return nil }
+func (o *obsStream) RecvMsg(m any) error                            { return nil }
